@@ -10,10 +10,7 @@ import (
 	"google.golang.org/grpc"
 )
 
-
-
 func zzIsEOF(err error) bool { return err == io.EOF }
-
 
 // H_C02_stream: one bidirectional stream between a real client and a real server.
 // cp (client program): 0 send-all, half-close, receive-all; 1 ping-pong then half-close;
